@@ -172,6 +172,35 @@ func structuralMutants(seed p7seed, attacker *keys.Key, attackerCertRaw, attacke
 			t.encap.Kids[1].Kids = []*refder.Tree{}
 			emit("content-wrapper-emptied", "", t)
 		}
+		// a second element inside [0], in front of or behind the signed one (an EXPLICIT wrapper
+		// holds one value; a verifier and a consumer that pick different ones disagree)
+		for vi, variant := range []string{"forged-copy", "octet-string"} {
+			orig := base.encap.Kids[1].Kids[0]
+			var extra *refder.Tree
+			if vi == 0 {
+				ex := base.clone().encap.Kids[1].Kids[0]
+				if len(ex.Kids) >= 2 && len(ex.Kids[1].Kids) >= 2 && ex.Kids[1].Kids[1].Tag == 0x04 && len(ex.Kids[1].Kids[1].Prim) > 0 {
+					d := ex.Kids[1].Kids[1]
+					d.Prim = append([]byte(nil), d.Prim...)
+					d.Prim[0] ^= 0xff
+				} else if ex.Kids == nil && len(ex.Prim) > 0 {
+					ex.Prim = append([]byte(nil), ex.Prim...)
+					ex.Prim[0] ^= 0xff
+				} else {
+					continue
+				}
+				extra = ex
+			} else {
+				extra = &refder.Tree{Tag: 0x04, Prim: []byte("attacker content")}
+			}
+			_ = orig
+			t := base.clone()
+			t.encap.Kids[1].Kids = append([]*refder.Tree{extra}, t.encap.Kids[1].Kids...)
+			emit("content-element-prepended/"+variant, "", t)
+			t2 := base.clone()
+			t2.encap.Kids[1].Kids = append(t2.encap.Kids[1].Kids, extra)
+			emit("content-element-appended/"+variant, "", t2)
+		}
 		// Spc digest rewritten inside the content (Authenticode)
 		t := base.clone()
 		c := t.encap.Kids[1].Kids[0]
